@@ -231,7 +231,7 @@ pub fn c26(args: Args) {
     let end = |_w: &World, _q: bool, _s: &[SchemaSnap], _a: &mut Acc| -> Vec<Finding> { Vec::new() };
     let nt = |w: &World| count_ops(w, "delete") > 0 && (count_ops(w, "revive") > 0 || w.log.iter().any(|l| l.ok && l.detail.starts_with("purged ") && l.detail != "purged 0"));
     let hooks = Hooks { after_op: &after, at_end: &end, nontrivial: &nt, dyn_check: false, quiesce: false, verify_sig: Some("c26/server-verify") };
-    let n = args.tier.pick(150, 4000);
+    let n = args.tier.pick(150, 1200);
     run_histories_ext(&mut run, &args, 26, n, &prof, &hooks, Some(&Ext {
         after_op_async: &|w, rec| Box::pin(async move { visibility(w, rec).await }),
         at_end_async: &|_w| Box::pin(async move { Vec::new() }),
@@ -243,7 +243,7 @@ pub fn c26(args: Args) {
         w: Weights { create: 30, add_member: 34, rem_member: 2, delete: 18, revive: 20, advance_small: 2, abort: 1, ..Default::default() },
         ops_min: 30, ops_max: 70, ..prof
     };
-    run_histories_ext(&mut run, &args, 1026, args.tier.pick(250, 4000), &prof_dense, &hooks, Some(&Ext {
+    run_histories_ext(&mut run, &args, 1026, args.tier.pick(250, 2000), &prof_dense, &hooks, Some(&Ext {
         after_op_async: &|w, rec| Box::pin(async move { visibility(w, rec).await }),
         at_end_async: &|_w| Box::pin(async move { Vec::new() }),
     }));
@@ -406,7 +406,7 @@ pub fn c09(args: Args) {
         del.iter().any(|(seq, u, r)| w.log.iter().any(|l| l.seq > *seq && matches!(l.op, Op::Repl { .. }) && l.ok) && w.log.iter().any(|l| l.ok && l.changed && l.op.target() != *r && match &l.op { Op::SetDesc { obj, .. } | Op::Rename { obj, .. } => obj.uuid() == *u, Op::AddMember { member, .. } => member == u, _ => false }))
     };
     let hooks = Hooks { after_op: &after, at_end: &end, nontrivial: &nt, dyn_check: false, quiesce: true, verify_sig: Some("c09/server-verify") };
-    let n = args.tier.pick(200, 6000);
+    let n = args.tier.pick(200, 1600);
     run_histories(&mut run, &args, 9, n, &prof, &hooks);
     c09_bounded(&mut run, &args);
     for k in ["op.delete.ok", "op.purge_recycled.ok", "op.purge_tombstones.ok", "op.repl.ok", "histories_with_effective_delete", "supplier_answer.v1", "supplier_answer.no_changes"] {
